@@ -34,7 +34,30 @@ def accessor_field(F, fn, call, depth=2):
     return None
 
 
-def lvalue_path(F, fn, e, depth=2):
+def decl_inits(fn):
+    """{vid: init expr} of the local declarations of fn (cached)."""
+    d = getattr(fn, "_decl_inits", None)
+    if d is None:
+        d = {}
+        for pos, ev in fn.events(include_dead=True):
+            if ev.get("k") == "decl" and ev.get("init") is not None:
+                d[ev["vid"]] = ev["init"]
+        fn._decl_inits = d
+    return d
+
+
+def single_def_value(fn, var):
+    """If local `var` is defined exactly once (its declaration), the initialiser; else None."""
+    var = strip_casts(var)
+    if not (isinstance(var, dict) and var.get("k") == "var"):
+        return None
+    defs = local_defs(fn, var["vid"])
+    if len(defs) == 1 and defs[0][2] == "decl":
+        return defs[0][1]
+    return None
+
+
+def lvalue_path(F, fn, e, depth=3):
     """'field:Class::name', 'field:Class::name[]', 'var:<vid>:name', 'global:qname', or None."""
     e = strip_move(e)
     if not isinstance(e, dict):
@@ -45,6 +68,13 @@ def lvalue_path(F, fn, e, depth=2):
     if k == "var":
         if e.get("vk") in ("global", "tls", "staticmember", "staticlocal"):
             return "global:" + e.get("qname", e.get("name"))
+        if e.get("isref") and e.get("vk") == "local" and depth > 0:
+            # a local reference is an alias of what it was bound to
+            init = decl_inits(fn).get(e.get("vid"))
+            if init is not None:
+                r = lvalue_path(F, fn, init, depth - 1)
+                if r is not None:
+                    return r
         return "var:%s:%s" % (e.get("vid"), e.get("name"))
     if k == "index":
         b = lvalue_path(F, fn, e.get("base"), depth)
